@@ -502,6 +502,7 @@ func (t *fnTrans) effectCall(c *ast.CallExpr) (string, []string, bool) {
 	if fd == nil || !fd.effectful() {
 		return "", nil, false
 	}
+	t.checkRecvPath(c)
 	if fd.opaque {
 		// an external function that changes an argument (ParseContentInfo advances its *cryptobyte.String)
 		t.useOpaque(c, fd)
@@ -509,8 +510,8 @@ func (t *fnTrans) effectCall(c *ast.CallExpr) (string, []string, bool) {
 		if recv != nil {
 			parts = append(parts, t.expr(recv))
 		}
-		for _, a := range c.Args {
-			parts = append(parts, t.expr(a))
+		for i := range c.Args {
+			parts = append(parts, t.argExpr(c, i))
 		}
 		tmp := t.fresh("r")
 		var b strings.Builder
@@ -544,8 +545,8 @@ func (t *fnTrans) effectCall(c *ast.CallExpr) (string, []string, bool) {
 	if recv != nil {
 		parts = append(parts, t.expr(recv))
 	}
-	for _, a := range c.Args {
-		parts = append(parts, t.expr(a))
+	for i := range c.Args {
+		parts = append(parts, t.argExpr(c, i))
 	}
 	tmp := t.fresh("r")
 	var b strings.Builder
